@@ -309,6 +309,17 @@ def check_src(src):
       ln = node.context_expr.lineno
     if ln is None or ln in handler_lines or ln not in byline:
       continue
+    if isinstance(node, ast.FunctionDef):
+      # the def statement itself evaluates its decorators and default values in the enclosing scope
+      sc = anno.getanno(node, anno.Static.SCOPE)
+      evaluated = list(node.decorator_list) + list(node.args.defaults) + [d for d in node.args.kw_defaults if d is not None]
+      want = set(x.id for e in evaluated for x in ast.walk(e) if isinstance(x, ast.Name) and isinstance(x.ctx, ast.Load))
+      nstmts += 1
+      miss = want - simple_names(sc.read)
+      if miss:
+        viol.append(('stmt-read', 'line %d `%s`: the def statement evaluates %s (decorators / defaults) in the enclosing scope, not in its read set %s' % (
+            ln, src.splitlines()[ln - 1].strip(), sorted(miss), sorted(simple_names(sc.read)))))
+      continue
     if isinstance(node, (ast.FunctionDef, ast.ClassDef, ast.Lambda)) or has_multiline(node):
       continue
     sc = anno.getanno(node, anno.Static.SCOPE)
@@ -386,6 +397,8 @@ def scoped_nodes(fn):
       yield n.iter, None
     elif isinstance(n, (ast.If, ast.While)):
       yield n.test, None
+    elif isinstance(n, ast.FunctionDef) and n is not fn:
+      yield n, None
 
 
 def check(item):
